@@ -941,7 +941,9 @@ def scenarios(ctx_pid, quick):
     from radical.pilot.agent.scheduler.continuous_jsrun import ContinuousJsrun
     js = ['c1', 'r2', 'c2', 'g1', 'r2g1', 'r2gh', 'r4gh', 'l1', 'm2']
     for lay in ('L1x4g2', 'L2x2g1lm'):
-        for combo in itertools.product(js, repeat=2 if quick else 3):
+        # triples on one layout only (2916 scenarios each)
+        n = 2 if (quick or lay == 'L1x4g2') else 3
+        for combo in itertools.product(js, repeat=n):
             add('jsrun', lay, list(combo), sched=ContinuousJsrun, jsrun=True,
                 scattered=True)
 
